@@ -27,9 +27,16 @@ pub fn meta(id: &str, tier: &str) -> CheckMeta {
         ],
         exhaustive: true,
         bounds: json!({"start_doc_lexemes_k": k, "history_depth": depth, "chunk_sizes": [0,1,2,3,7], "seed_sub_box": "depth+1 on language #(seed mod N), seeds only",
-            "included_range_box_(max_doc_bytes,max_ranges_R1,max_ranges_R2,crossed_with_every_edit)": range_passes(tier)}),
+            "included_range_box_(max_doc_bytes,max_ranges_R1,max_ranges_R2,crossed_with_every_edit)": range_passes(tier),
+            "batched_edits_(pairs_on_docs_up_to_bytes,pairs_on_seeds_up_to_bytes,triples_on_docs_up_to_bytes)": [batch_bounds(tier).0, batch_bounds(tier).1, batch_bounds(tier).2]}),
     }
 }
+
+/// (every ordered PAIR of edits before one re-parse on all documents up to .0 bytes and on seeds up to .1 bytes, every TRIPLE up to .2 bytes)
+pub fn batch_bounds(tier: &str) -> (usize, usize, usize) {
+    // (VF_BATCH=a,b,c overrides the bounds: for experiments only, never set by the registered commands)
+    if let Ok(v) = std::env::var("VF_BATCH") { let p: Vec<usize> = v.split(',').filter_map(|x| x.parse().ok()).collect(); if p.len() == 3 { return (p[0], p[1], p[2]); } }
+    if tier == "mini" { (2, 6, 0) } else if tier == "quick" { (3, 14, 0) } else { (7, 24, 4) } }
 
 pub fn build_info(z: &ZooLang) -> LangInfo {
     let l = crate::lang::build(&z.spec, OptLevel::default()).expect("zoo language builds");
@@ -48,6 +55,28 @@ pub fn worker(ctx: &Ctx, res: &mut ShardResult) {
     let zoo = crate::zoo::core_zoo();
     let nlang = zoo.len();
     let mut idx = 0usize;
+    // batched edits first (a bounded box, so that the open-ended history search below cannot starve it): several edits on
+    // the old tree before ONE re-parse. Every ordered pair on all documents up to `pair_len` bytes and on the seeds up to
+    // `seed_len` bytes, every ordered triple on documents up to `triple_len` bytes.
+    if ctx.id != "C02" {
+        let (pair_len, seed_len, triple_len) = batch_bounds(&ctx.tier);
+        for z in zoo.iter() {
+            let info = build_info(z);
+            let mut scratch = ScratchCache::new();
+            let small_atoms: Vec<Vec<u8>> = { let mut a: Vec<Vec<u8>> = z.lexemes.iter().take(3).map(|s| s.as_bytes().to_vec()).collect(); for x in ["\n".as_bytes(), b" "] { if !a.iter().any(|y| y == x) { a.push(x.to_vec()); } } a };
+            let docs = crate::docs::docs(z, 2);
+            for (di, d) in docs.iter().enumerate() {
+                if d.is_empty() || !(d.len() <= pair_len || (di < z.seeds.len() && d.len() <= seed_len)) { continue; }
+                idx += 1;
+                if !ctx.mine(idx) { continue; }
+                hist::explore_batched(ctx, &info, d, &small_atoms, 2, oracle_of(&ctx.id), res, &mut scratch);
+                if d.len() <= triple_len { hist::explore_batched(ctx, &info, d, &small_atoms, 3, oracle_of(&ctx.id), res, &mut scratch); }
+                res.count(&format!("batched_docs_{}", z.name), 1);
+                if res.too_many() { return; }
+                if ctx.out_of_time() { res.caps.push("wall-clock budget reached (batched edits)".into()); return; }
+            }
+        }
+    }
     for (li, z) in zoo.iter().enumerate() {
         let info = build_info(z);
         let atoms = insert_atoms(z);
